@@ -1,8 +1,8 @@
-\* exhaustive: the repaired design satisfies the contract (2 slots, all create kinds, setup depth 4, 2 probes)
+\* negative control: the target address is parsed as a URL on the way and the parse error is ignored - MUST violate Total
 SPECIFICATION Spec
 CHECK_DEADLOCK FALSE
 VIEW view
-INVARIANTS TypeOK Contract
+INVARIANTS TypeOK Total
 CONSTANTS
   Slots = {1, 2}
   CreateKinds = {"create", "create_pos", "create_rpcpos", "create_dbc"}
@@ -15,4 +15,4 @@ CONSTANTS
   Utf8LabelsHandled = TRUE
   SetupShapes = {"uri", "userinfo", "hostport", "ipv6open", "blank", "ctrl", "badpct", "alphaport", "empty", "long"}
   AddrShapes = {"uri", "userinfo", "hostport", "ipv6open", "blank", "ctrl", "badpct", "alphaport", "empty", "long"}
-  AddrParsedUnchecked = FALSE
+  AddrParsedUnchecked = TRUE
